@@ -293,6 +293,7 @@ class Resolver:
         self.fx = body.facts
         self.defs = {}      # local -> list of (proj(tuple), kind, payload, bb)
         self.memo = {}
+        self.mem_writes = []
         self._collect()
 
     def _collect(self):
@@ -304,10 +305,17 @@ class Resolver:
             for st in b['stmts']:
                 if st['k'] == 'assign':
                     p = st['p']
+                    if any(e['k'] == 'deref' for e in p['p']):
+                        # a write *through* the pointer held in the local, not a definition of the local
+                        self.mem_writes.append((p, 'rv', st['rv'], bi))
+                        continue
                     self.defs.setdefault(p['l'], []).append((tuple(self._projkey(p)), 'rv', st['rv'], bi))
             t = b['term']
             if t and t['k'] == 'call':
                 p = t['dest']
+                if any(e['k'] == 'deref' for e in p['p']):
+                    self.mem_writes.append((p, 'call', t, bi))
+                    continue
                 self.defs.setdefault(p['l'], []).append((tuple(self._projkey(p)), 'call', t, bi))
 
     @staticmethod
